@@ -25,6 +25,8 @@ pub enum T {
     GCall(&'static str, Vec<T>),
     List(Vec<T>),
     Map(Vec<(T, T)>),
+    /// a message literal: leading dot, dotted type name, fields
+    Msg(bool, Vec<&'static str>, Vec<(&'static str, T)>),
 }
 
 const REL: [&str; 7] = ["<", "<=", ">=", ">", "==", "!=", "in"];
@@ -109,6 +111,15 @@ pub fn expected(t: &T) -> String {
             o.push(')');
             o
         }
+        T::Msg(lead, names, fields) => {
+            let name = format!("{}{}", if *lead { "." } else { "" }, names.join("."));
+            let mut o = format!("(struct {}", sx_str(&name));
+            for (n, v) in fields {
+                o.push_str(&format!(" ({} {})", sx_str(n), expected(v)));
+            }
+            o.push(')');
+            o
+        }
     }
 }
 
@@ -134,6 +145,8 @@ pub fn print_full(t: &T) -> String {
         T::GCall(f, args) => format!("{}({})", f, commas(args, &|x| p(x))),
         T::List(es) => format!("[{}]", commas(es, &|x| p(x))),
         T::Map(es) => format!("{{{}}}", es.iter().map(|(k, v)| format!("{}: {}", p(k), p(v))).collect::<Vec<_>>().join(", ")),
+        T::Msg(lead, names, fields) => format!("{}{}{{{}}}", if *lead { "." } else { "" }, names.join("."),
+                                               fields.iter().map(|(n, v)| format!("{}: {}", n, p(v))).collect::<Vec<_>>().join(", ")),
     }
 }
 
@@ -178,6 +191,8 @@ pub fn print_min(t: &T) -> String {
         T::GCall(f, args) => format!("{}({})", f, commas(args, &|x| print_min(x))),
         T::List(es) => format!("[{}]", commas(es, &|x| print_min(x))),
         T::Map(es) => format!("{{{}}}", es.iter().map(|(k, v)| format!("{}: {}", print_min(k), print_min(v))).collect::<Vec<_>>().join(", ")),
+        T::Msg(lead, names, fields) => format!("{}{}{{{}}}", if *lead { "." } else { "" }, names.join("."),
+                                               fields.iter().map(|(n, v)| format!("{}: {}", n, print_min(v))).collect::<Vec<_>>().join(", ")),
     }
 }
 
@@ -285,7 +300,11 @@ fn random_tree(rng: &mut Rng, depth: u32) -> T {
             T::GCall("g", (0..n).map(|_| random_tree(rng, d)).collect())
         }
         _ => {
-            if rng.chance(1, 2) {
+            if rng.chance(1, 4) {
+                let n = rng.below(3);
+                let names: Vec<&'static str> = match rng.below(3) { 0 => vec!["T"], 1 => vec!["pkg", "T"], _ => vec!["a", "b", "Msg"] };
+                T::Msg(rng.chance(1, 3), names, (0..n).map(|i| (["f", "g", "h"][i as usize], random_tree(rng, d))).collect())
+            } else if rng.chance(1, 2) {
                 let n = rng.below(3);
                 T::List((0..n).map(|_| random_tree(rng, d)).collect())
             } else {
@@ -305,6 +324,7 @@ fn ops(t: &T) -> u32 {
         T::MCall(r, _, args) => 1 + ops(r) + args.iter().map(ops).sum::<u32>(),
         T::GCall(_, args) | T::List(args) => 1 + args.iter().map(ops).sum::<u32>(),
         T::Map(es) => 1 + es.iter().map(|(k, v)| ops(k) + ops(v)).sum::<u32>(),
+        T::Msg(_, _, fs) => 1 + fs.iter().map(|(_, v)| ops(v)).sum::<u32>(),
     }
 }
 
@@ -364,6 +384,14 @@ fn st_wire(t: &T, full: bool) -> Option<String> {
             let mut o = String::from("(map");
             for (k, v) in es {
                 o.push_str(&format!(" ({} {})", sub(k)?, sub(v)?));
+            }
+            o.push(')');
+            o
+        }
+        T::Msg(lead, names, fields) => {
+            let mut o = format!("(msg {} (names{})", lead, names.iter().map(|n| format!(" {}", sx_str(n))).collect::<String>());
+            for (n, v) in fields {
+                o.push_str(&format!(" ({} {})", sx_str(n), sub(v)?));
             }
             o.push(')');
             o
